@@ -209,6 +209,16 @@ def property_checks(inp):
     bas3 = quiet(kl.gkl_basis, ri, nr, int(2 * numpy.pi * nr), inp["nfunc"])
     polar_checks(bas3, "azimuthal sampling of make_kl", A)
     cart_checks(inp, A)
+    # a kernel computed once and used for several bases (other mode counts) is still that kernel, and each basis is what it
+    # is when computed from a fresh kernel
+    rad_ = quiet(kl.gkl_radii, ri, nr)
+    kern = quiet(kl.gkl_kernel, ri, nr, rad_)
+    k0 = numpy.array(kern, copy=True)
+    r1_ = quiet(kl.gkl_fcom, ri, kern, inp["nfunc"]); e1, v1 = r1_[0], r1_[4]
+    r2_ = quiet(kl.gkl_fcom, ri, kern, inp["nfunc2"]); e2, v2 = r2_[0], r2_[4]
+    r3_ = quiet(kl.gkl_fcom, ri, k0.copy(), inp["nfunc2"]); e3, v3 = r3_[0], r3_[4]
+    A(("gkl_fcom leaves the kernel it is given untouched", 0.0 if numpy.array_equal(kern, k0) else 1.0, 0.0))
+    A(("a second basis from the same kernel = the basis from a fresh kernel", float(max(numpy.abs(numpy.asarray(e2) - numpy.asarray(e3)).max(), numpy.abs(numpy.asarray(v2) - numpy.asarray(v3)).max())), 0.0))
     return out
 
 
